@@ -6,10 +6,11 @@
 //   L1  r@ == op_ann_text(*expr, content@)   (+ C12: the recursion terminates: `decreases expr`; C11: no slicing panic —
 //       the constant's text is taken with the checked `str::get`, never `&content[a..b]`)
 //   L2  prelude/anntext_l2.rs: lemma_C03_* (a constant prints its source slice; the printer adds blanks only after ','
-//       and around '|' — printed text == token concatenation up to blanks; which expressions print as "Any"; FACTS:
-//       `Callable[[int], str]` -> `Callable[Any, str]`, `tuple[()]` -> `tuple[]`, `X[(a, b), c]` -> `X[a, b, c]`), canaries.
-//   assumed: prelude/anntext_prims.rs AT1-AT4 (str::get(a..b), the format! table via prelude/anntext_fmt_macro.rs, join,
-//       slice map), build/astspec.rs (Identifier::to_string, TextRange::start/end, TextSize::to_usize).
+//       and around '|' — printed text == token concatenation up to blanks; every kind the printer does not take apart
+//       prints its own source slice (F-03d repaired: `Callable[[int], str]` verbatim), `Any` only for an invalid range;
+//       FACTS that remain: `tuple[()]` -> `tuple[]`, `X[(a, b), c]` -> `X[a, b, c]`), canaries.
+//   assumed: prelude/anntext_prims.rs AT1-AT5 (str::get(a..b), the format! table via prelude/anntext_fmt_macro.rs, join,
+//       slice map, AT5 <Expr as Ranged>::range), build/astspec.rs (Identifier::to_string, TextRange::start/end, TextSize::to_usize).
 //   transformation beyond T1-T12: none on the function text; `format!` resolves to the table macro of
 //       prelude/anntext_fmt_macro.rs (shadows std's inside this file), `.iter().map(` -> `.iter().vp_map(`, `.join(` -> `.vp_join(`.
 use rustpython_parser::ast::{Expr, Stmt};
@@ -38,6 +39,8 @@ impl FixtureDatabase {
 @closure map:1 |e: &Expr| -> (s: String) requires decreases_to!(expr => e) ensures s@ == op_ann_text(*e, content@)
 @closure map:2 |text: &str| -> (s: String) ensures s@ == text@
 @closure unwrap_or_else:1 || -> (s: String) ensures s@ == debug_v(&constant.value)
+@closure map:3 |text: &str| -> (s: String) ensures s@ == text@
+@closure unwrap_or_else:2 || -> (s: String) ensures s@ == any_text()
 @sig
     ensures r@ == op_ann_text(*expr, content@),
     decreases expr,
@@ -66,6 +69,8 @@ impl FixtureDatabase {
 @closure map:1 |e: &Expr| -> (s: String) requires decreases_to!(expr => e) ensures s@ == op_ann_text(*e, content@)
 @closure map:2 |text: &str| -> (s: String) ensures s@ == text@
 @closure unwrap_or_else:1 || -> (s: String) ensures s@ == debug_v(&constant.value)
+@closure map:3 |text: &str| -> (s: String) ensures s@ == text@
+@closure unwrap_or_else:2 || -> (s: String) ensures s@ == any_text()
 @sig
     ensures false,
     decreases expr,
@@ -94,6 +99,8 @@ impl FixtureDatabase {
 @closure map:1 |e: &Expr| -> (s: String) requires decreases_to!(expr => e) ensures s@ == op_ann_text(*e, content@)
 @closure map:2 |text: &str| -> (s: String) ensures s@ == text@
 @closure unwrap_or_else:1 || -> (s: String) ensures s@ == debug_v(&constant.value)
+@closure map:3 |text: &str| -> (s: String) ensures s@ == text@
+@closure unwrap_or_else:2 || -> (s: String) ensures s@ == any_text()
 @sig
     ensures (match *expr { Expr::Attribute(a) => r@ == idv(&a.attr) + "."@ + op_ann_text(*a.value, content@), _ => true }),
     decreases expr,
